@@ -40,6 +40,9 @@ type fileConfig struct {
 	callbacks    []ConfigReloadCallback
 	mux          sync.RWMutex
 	lastLoadTime time.Time
+	// currentVersion is the version NewConfig validated against; Reload reuses
+	// it so that a reload accepts exactly what startup would accept.
+	currentVersion []string
 }
 
 // ensure that fileConfig implements Config
@@ -644,6 +647,7 @@ func NewConfig(opts *CmdEnv, currentVersion ...string) (Config, error) {
 	}
 
 	cfg.callbacks = make([]ConfigReloadCallback, 0)
+	cfg.currentVersion = currentVersion
 
 	return cfg, err
 }
@@ -666,7 +670,7 @@ func (f *fileConfig) Reload(opts ...ReloadedConfigDataOption) error {
 	}
 
 	// reread the configs
-	cfg, err := newFileConfig(f.opts, newData.configs, newData.rules)
+	cfg, err := newFileConfig(f.opts, newData.configs, newData.rules, f.currentVersion...)
 	if err != nil {
 		return err
 	}
